@@ -209,8 +209,22 @@ func (c *Ctx) execCall(s *State, in ssa.Instruction, cc *ssa.CallCommon, res ssa
 	}
 	isEvent := c.eng.isEvent(evName)
 
+	// 0. closure verified in the context of its caller (see verifyInContext)
+	inCtx := fc != nil && callee != nil && c.inContext[fc.Key] && len(callee.Blocks) > 0 && !c.onStack(s, callee)
+	if inCtx {
+		env := c.callEnv(s, fc, callee, cc, recv, args)
+		c.bindFreeVars(env, callee, binds)
+		env.old = s.snapshot()
+		for i, rq := range fc.Requires {
+			g := env.evalRequires(rq.Expr, callee)
+			c.reportEvalErrors(env, fc, rq.Src)
+			nm := fmt.Sprintf("%s/requires@%s#%d:%s[%d]", fnKey(in.Parent()), otag(in), c.ordinal("requires", in), shortName(fc.Key), i+1)
+			c.oblige(s, "requires", nm, g, pos, "precondition of "+fc.Key+": "+rq.Src, c.props)
+			s.assume(g)
+		}
+	}
 	// 1. modular: callee (or assumed external) has a contract
-	if fc != nil && (fc.HasSpec || fc.Assumed || fc.Pure) && !fc.Inline {
+	if fc != nil && (fc.HasSpec || fc.Assumed || fc.Pure) && !fc.Inline && !inCtx {
 		r := c.applyContract(s, in, fc, callee, cc, recv, args, binds, res)
 		ev.Res = r
 		if isEvent {
@@ -224,7 +238,8 @@ func (c *Ctx) execCall(s *State, in ssa.Instruction, cc *ssa.CallCommon, res ssa
 		return nil
 	}
 	// 2. inline repo functions without contract
-	if callee != nil && len(callee.Blocks) > 0 && c.eng.inlinable(callee) && !(fc != nil && fc.Opaque) && c.depth < 6 && !c.onStack(s, callee) {
+	if inCtx || callee != nil && len(callee.Blocks) > 0 && c.eng.inlinable(callee) && !(fc != nil && fc.Opaque) && c.depth < 6 && !c.onStack(s, callee) {
+		traceStart := len(s.trace)
 		if isEvent {
 			s.seq++
 			ev.Seq = s.seq
@@ -237,6 +252,16 @@ func (c *Ctx) execCall(s *State, in ssa.Instruction, cc *ssa.CallCommon, res ssa
 		c.depth--
 		var forks []*State
 		for i, rp := range rets {
+			if inCtx && len(rp.s.frames) > nframes && !rp.s.dead {
+				ts := traceStart
+				if isEvent {
+					ts++ // the call event itself belongs to the caller
+				}
+				if ts > len(rp.s.trace) {
+					ts = len(rp.s.trace)
+				}
+				c.checkReturnFrame(rp, fc, callee, args, rp.s.frames[nframes], rp.s.trace[ts:], true)
+			}
 			rp.s.frames = rp.s.frames[:nframes]
 			var rv Value
 			switch len(rp.vals) {
@@ -841,6 +866,61 @@ func (c *Ctx) execGo(s *State, x *ssa.Go) {
 		}
 	}
 	s.trace = append(s.trace, gev)
+	if fc := c.contractFor(name); fc != nil && callee != nil && c.inContext[fc.Key] && len(callee.Blocks) > 0 && c.scout == 0 {
+		// the goroutine's own rules, decided with the bindings it is spawned with: it starts from the
+		// spawner's knowledge about values, but from an arbitrary later shared state
+		s2 := s.clone()
+		for k := range s2.heap {
+			delete(s2.heap, k)
+		}
+		s2.later = true
+		s2.locks = nil
+		s2.atLock, s2.atUnlock = nil, nil
+		var binds []Value
+		if sc, ok := c.val(s, x.Call.Value).(Sc); ok {
+			if ci, ok := c.eng.closures[sc.T.S]; ok {
+				binds = ci.binds
+			}
+		}
+		// captured variables that are assigned exactly once (at their declaration) keep their value
+		if mc, ok := x.Call.Value.(*ssa.MakeClosure); ok {
+			for i, bv := range mc.Bindings {
+				al, ok := bv.(*ssa.Alloc)
+				if !ok || i >= len(binds) || cellStores(al, 0) != 1 {
+					continue
+				}
+				if sc, ok := binds[i].(Sc); ok {
+					et := al.Type().Underlying().(*types.Pointer).Elem()
+					saved := c.written
+					c.written = nil
+					c.storeAt(s2, sc.T, et, c.loadAt(s, sc.T, et))
+					c.written = saved
+				}
+			}
+		}
+		env := c.callEnv(s2, fc, callee, &x.Call, nil, args)
+		c.bindFreeVars(env, callee, binds)
+		env.old = s2.snapshot()
+		for _, rq := range fc.Requires {
+			g := env.evalRequires(rq.Expr, callee)
+			env.errs = nil
+			s2.assume(g)
+		}
+		ts := len(s2.trace)
+		nframes := len(s2.frames)
+		c.depth++
+		rets := c.runFunction(s2, callee, args, binds)
+		c.depth--
+		for _, rp := range rets {
+			if len(rp.s.frames) > nframes && !rp.s.dead {
+				t0 := ts
+				if t0 > len(rp.s.trace) {
+					t0 = len(rp.s.trace)
+				}
+				c.checkReturnFrame(rp, fc, callee, args, rp.s.frames[nframes], rp.s.trace[t0:], true)
+			}
+		}
+	}
 	// the spawned function's precondition must hold at the go statement
 	if fc := c.contractFor(name); fc != nil && callee != nil {
 		env := c.callEnv(s, fc, callee, &x.Call, nil, args)
@@ -1074,4 +1154,43 @@ func benignOpaque(name string) bool {
 		}
 	}
 	return false
+}
+
+// cellStores counts the assignments to a local variable cell, in the function that declares it and in
+// every closure that captures it.
+func cellStores(v ssa.Value, depth int) int {
+	if depth > 4 || v.Referrers() == nil {
+		return 99
+	}
+	n := 0
+	for _, r := range *v.Referrers() {
+		switch x := r.(type) {
+		case *ssa.Store:
+			if x.Addr == v {
+				n++
+			} else {
+				return 99 // the address itself is stored somewhere
+			}
+		case *ssa.MakeClosure:
+			fn, _ := x.Fn.(*ssa.Function)
+			for i, b := range x.Bindings {
+				if b == v && fn != nil && i < len(fn.FreeVars) {
+					n += cellStores(fn.FreeVars[i], depth+1)
+				}
+			}
+		case *ssa.UnOp, *ssa.DebugRef, *ssa.FieldAddr, *ssa.IndexAddr:
+			// loads and accesses below the cell (field stores are not tracked: be conservative)
+			if fa, ok := r.(*ssa.FieldAddr); ok {
+				_ = fa
+				return 99
+			}
+			if ia, ok := r.(*ssa.IndexAddr); ok {
+				_ = ia
+				return 99
+			}
+		default:
+			return 99
+		}
+	}
+	return n
 }
